@@ -647,6 +647,107 @@ print('REPRODUCED' if bad else 'NOT-REPRODUCED'); sys.exit(1 if bad else 0)
     return path if ok else None
 
 
+# ------------------------------------------------------------------ (d) interleavings: scopes of DIFFERENT managers exited out of order
+def run_interleave(spec, tier, mg):
+    """enter / exit events of the three managers in every order in which each exit matches an open entry of the same manager (scopes
+    of different managers may overlap without nesting: generators, ExitStack, hand-written __enter__/__exit__).  Specification: when a
+    scope exits, the switch it controls returns to the value it had when that scope was entered."""
+    import itertools
+
+    import mygrad._utils.graph_tracking as gt
+    import mygrad._utils.lock_management as lm
+
+    res = common.new_result()
+    mgrs = _managers()  # (name, manager, module, attribute, value set on entry)
+    maxlen = 6 if tier == "quick" else 8
+    findings = []
+
+    def sequences():
+        def rec(seq, open_):
+            if seq and not open_:
+                yield list(seq)
+            if len(seq) >= maxlen:
+                return
+            for i in range(len(mgrs)):
+                if open_.count(i) < 2 and len(seq) + len(open_) + 2 <= maxlen + 1:
+                    yield from rec(seq + [("enter", i)], open_ + [i])
+            for i in sorted(set(open_)):
+                o2 = list(open_)
+                o2.reverse(); o2.remove(i); o2.reverse()
+                yield from rec(seq + [("exit", i)], o2)
+        yield from rec([], [])
+
+    seqs = list(sequences())
+    for init in itertools.product([True, False], repeat=2):
+        for seq in seqs:
+            gt.TRACK_GRAPH, lm.MEM_GUARD = init
+            state = {"TRACK_GRAPH": init[0], "MEM_GUARD": init[1]}
+            saved = {i: [] for i in range(len(mgrs))}
+            bad = None
+            try:
+                for k, (ev, i) in enumerate(seq):
+                    name, mgr, mod, attr, val = mgrs[i]
+                    if ev == "enter":
+                        saved[i].append(state[attr])
+                        state[attr] = val
+                        mgr.__enter__()
+                    else:
+                        state[attr] = saved[i].pop()
+                        mgr.__exit__(None, None, None)
+                    got = {"TRACK_GRAPH": gt.TRACK_GRAPH, "MEM_GUARD": lm.MEM_GUARD}
+                    if got != state:
+                        bad = "after event %d of %s from %s: switches %s, expected %s" % (k + 1, [(e, mgrs[j][0]) for e, j in seq], init, got, state)
+                        break
+            except Exception as e:  # noqa
+                bad = "%s raised %s: %s" % ([(e_, mgrs[j][0]) for e_, j in seq], type(e).__name__, e)
+            finally:
+                lib.reset_state()
+            res["paths"] += 1
+            if bad:
+                findings.append((seq, init, bad))
+                if len(findings) >= 3:
+                    break
+        if len(findings) >= 3:
+            break
+    gt.TRACK_GRAPH, lm.MEM_GUARD = True, True
+    if findings:
+        seq, init, bad = findings[0]
+        src = '''import sys
+import mygrad as mg
+import mygrad._utils.graph_tracking as gt
+import mygrad._utils.lock_management as lm
+M = {"no_autodiff": (mg.no_autodiff, "TRACK_GRAPH", False), "mem_guard_off": (mg.mem_guard_off, "MEM_GUARD", False), "mem_guard_on": (mg.mem_guard_on, "MEM_GUARD", True)}
+SEQ = %r; INIT = %r
+gt.TRACK_GRAPH, lm.MEM_GUARD = INIT
+state = {"TRACK_GRAPH": INIT[0], "MEM_GUARD": INIT[1]}
+saved = {n: [] for n in M}
+bad = []
+try:
+    for ev, n in SEQ:
+        mgr, attr, val = M[n]
+        if ev == "enter":
+            saved[n].append(state[attr]); state[attr] = val; mgr.__enter__()
+        else:
+            state[attr] = saved[n].pop(); mgr.__exit__(None, None, None)
+        got = {"TRACK_GRAPH": gt.TRACK_GRAPH, "MEM_GUARD": lm.MEM_GUARD}
+        if got != state: bad.append((ev, n, got, dict(state))); break
+except Exception as e:
+    bad.append(("raised", type(e).__name__, str(e)))
+print(bad)
+print('REPRODUCED' if bad else 'NOT-REPRODUCED'); sys.exit(1 if bad else 0)
+''' % ([(e, mgrs[j][0]) for e, j in seq], tuple(init))
+        path = common.write_replay(PROP, "interleave", src)
+        ok, out = common.run_replay(path)
+        if ok:
+            res["status"] = common.VIOLATION
+            res["violations"].append({"signature": "interleave:%s" % bad[:40], "replay": path, "summary": bad})
+        else:
+            res["status"] = common.INCONCLUSIVE
+            res["notes"].append("did not reproduce: %s" % bad)
+    res["sample"] = {"sequences": len(seqs), "initial settings": 4, "max events": maxlen}
+    return res
+
+
 # ------------------------------------------------------------------ driver
 def cases(tier):
     cs = []
@@ -654,6 +755,7 @@ def cases(tier):
         for mode in ("enter", "exit", "pair", "decorator", "decorator-raise"):
             cs.append({"kind": "ind", "name": "inductive/%s/%s" % (m, mode), "mgr": m, "mode": mode})
     cs.append({"kind": "nest", "name": "nesting/bounded"})
+    cs.append({"kind": "interleave", "name": "interleaving/bounded"})
     for i in range(0, len(PROGS), 3):
         cs.append({"kind": "noauto", "name": "noauto/%d" % i, "progs": PROGS[i:i + 3]})
     # the same bodies with a memory-guard manager nested inside / around the no_autodiff scope
@@ -671,6 +773,8 @@ def run_case(spec, tier):
         return run_inductive(spec, tier)
     if spec["kind"] == "nest":
         return run_nesting(spec, tier, mg)
+    if spec["kind"] == "interleave":
+        return run_interleave(spec, tier, mg)
     if spec["kind"] == "noauto-back":
         return run_noauto_backward(spec, tier, mg)
     return run_noautodiff(spec, tier, mg)
